@@ -1,10 +1,17 @@
 (* C06 - what the model says is what the printed text says.
-   The re-parse needs the real lexer and LALR engine (an oracle): that half is decided on every run by the
-   monitor (print, re-parse with the real parser, field-by-field comparison). Proved here: the formatted
-   layout of every generated class enumerates its declared fields exactly once in declaration order, and
-   every `or`-chain that places an optional child (pivot) is the scheme's chain - the facts the edit
-   algorithms' separator placement relies on (C06_partial: the separation invariant itself is C03's). *)
-From AB Require Import Desc Generated GeneratedWf DescProofs.
+   The re-parse itself needs the real lexer and LALR engine (an oracle): that half is decided on every run
+   by the monitor (print, re-parse with the real parser, field-by-field comparison after every edit).
+   Proved here:
+   (a) for every generated class (re-extracted from the source on this run): the formatted layout enumerates
+       the declared fields exactly once in declaration order, and every pivot that places an optional child
+       is the scheme's `or`-chain (and is recomputed on every access: the translator refuses a cached pivot);
+   (b) the separation invariant of repeated fields (RepeatedSep.v): if every item is preceded by a gap that
+       contains a visible separator token whenever the field's separators are visible (", ", "\n", " "), then
+       the same holds after every deletion, insertion (any number of values, any position, all three separator
+       branches of _insert_tokens) and replacement - this is what rules out `AAA, , BBBEUR` / `BBBUSD`;
+       fields declared with separators=() demand nothing (C06_sep_tight).
+   C06_partial: the statement "the printed text re-parses to the same model" is not a theorem (oracle). *)
+From AB Require Import Desc Generated GeneratedWf DescProofs Repeated RepeatedLayout RepeatedCells RepeatedSep.
 
 Theorem C06_generated_classes_wf : forall c, In c classes -> wf_desc c = true.
 Proof. exact generated_wf_each. Qed.
@@ -15,3 +22,17 @@ Proof. intros c H. apply wf_formatted_order. exact (generated_wf_each c H). Qed.
 
 Theorem C06_pivots_are_scheme_partial : forall c, In c classes -> pivots_ok c = true.
 Proof. intros c H. destruct (wf_desc_parts c (generated_wf_each c H)) as (_&_&_&_&_&_&_&_&_&P&_). exact P. Qed.
+
+Theorem C06_sep_delete : forall seps sepsb A M B, Sep seps sepsb (A ++ M ++ B) -> Sep seps sepsb (del_res A M B).
+Proof. exact Sep_del. Qed.
+
+Theorem C06_sep_insert : forall seps sepsb A B fr vs,
+  Sep seps sepsb (A ++ B) -> Sep seps sepsb (ins_res seps sepsb A B fr vs).
+Proof. exact Sep_ins. Qed.
+
+Theorem C06_sep_replace : forall seps sepsb A c B body,
+  Sep seps sepsb (A ++ c :: B) -> Sep seps sepsb (A ++ mkcell (c_gap c) body :: B).
+Proof. exact Sep_set. Qed.
+
+Theorem C06_sep_tight : forall cs, Sep [] [] cs.
+Proof. exact Sep_tight. Qed.
